@@ -245,8 +245,14 @@ func advTerm(r *Rng, depth int) *pb.TermV2 {
 	}
 	switch k {
 	case 0:
+		if r.Chance(5, 6) { // mostly indexes the block declares (see advBlock): evaluation is reached
+			return pbStr(Pick(r, []uint64{0, 27, 1024, 1025, 1026, 1027, 1028, 1029}))
+		}
 		return pbStr(Pick(r, idx))
 	case 1:
+		if r.Chance(5, 6) {
+			return pbVar(uint32(Pick(r, []uint64{0, 1024, 1025, 1026, 1027})))
+		}
 		return pbVar(uint32(Pick(r, []uint64{0, 1024, 1025, 1 << 31, 1<<32 - 1})))
 	case 2:
 		return pbInt(Pick(r, boundaryInts))
@@ -277,6 +283,9 @@ func advTerm(r *Rng, depth int) *pb.TermV2 {
 func advPred(r *Rng) *pb.PredicateV2 {
 	names := []uint64{0, 2, 27, 28, 1023, 1024, 1025, 1 << 40, 1 << 63, math.MaxUint64}
 	n := Pick(r, names)
+	if r.Chance(5, 6) {
+		n = Pick(r, []uint64{0, 2, 27, 1024, 1025, 1026})
+	}
 	p := &pb.PredicateV2{Name: &n}
 	for i, k := 0, r.Intn(4); i < k; i++ {
 		p.Terms = append(p.Terms, advTerm(r, 1))
@@ -325,6 +334,11 @@ func advRule(r *Rng) *pb.RuleV2 {
 
 func advBlock(r *Rng) []byte {
 	b := &pb.Block{}
+	if r.Chance(4, 5) {
+		// six fresh symbols first (the first block's indexes 1024..1029 are then declared; later
+		// blocks repeat them, which adds nothing, so their high indexes are undeclared)
+		b.Symbols = append(b.Symbols, "a", "b", "x", "é", "", "zz")
+	}
 	for i, k := 0, r.Intn(4); i < k; i++ {
 		b.Symbols = append(b.Symbols, Pick(r, []string{"a", "b", "read", "a", "x", "", "é"}))
 	}
@@ -355,11 +369,85 @@ func advBlock(r *Rng) []byte {
 	return mustMarshal(b)
 }
 
+// advJoinBlock: a COHERENT block (every symbol and variable declared, so that the Unmarshal
+// gate lets it through and evaluation is reached) whose facts carry values of every type —
+// byte arrays, sets, boundary integers, dates, booleans, strings — and whose rules and checks
+// join on them: the same variable several times in a body, constants of every type in body
+// positions, a random operator applied to two bound variables.
+func advJoinBlock(r *Rng, base uint64) []byte {
+	syms := []string{"k", "t", "u", "va", "vb", "vc", "s1", "s2"}
+	for i := range syms {
+		syms[i] = fmt.Sprintf("%s%d", syms[i], base) // distinct from other blocks' symbols
+	}
+	name := func(i int) *uint64 { n := base + uint64(i); return &n }
+	vr := func(i int) *pb.TermV2 { return pbVar(uint32(base) + 3 + uint32(i)) }
+	vals := []*pb.TermV2{
+		pbBytes([]byte{0xde, 0xad}), pbBytes([]byte{}), pbBytes([]byte{0xde, 0xad}),
+		pbSet(pbBytes([]byte{1}), pbBytes([]byte{2})), pbSet(pbInt(1), pbInt(2)), pbSet(pbStr(base+6), pbStr(base+7)),
+		pbInt(math.MinInt64), pbInt(math.MaxInt64), pbInt(0), pbInt(-1),
+		pbStr(base + 6), pbStr(base + 7), pbStr(0),
+		{Content: &pb.TermV2_Date{Date: 0}}, {Content: &pb.TermV2_Date{Date: math.MaxUint64}},
+		{Content: &pb.TermV2_Bool{Bool: true}},
+	}
+	v := uint32(3)
+	b := &pb.Block{Symbols: syms, Version: &v}
+	for i, n := 0, 3+r.Intn(5); i < n; i++ {
+		x, y := Pick(r, vals), Pick(r, vals)
+		b.FactsV2 = append(b.FactsV2, &pb.FactV2{Predicate: &pb.PredicateV2{Name: name(0), Terms: []*pb.TermV2{x, y}}})
+		if r.Chance(2, 3) {
+			b.FactsV2 = append(b.FactsV2, &pb.FactV2{Predicate: &pb.PredicateV2{Name: name(1), Terms: []*pb.TermV2{y}}})
+		}
+	}
+	binKinds := []int32{0, 1, 2, 3, 4, 5, 6, 7, 8, 9, 10, 11, 12, 13, 14, 15, 16}
+	mkBody := func() ([]*pb.PredicateV2, []*pb.ExpressionV2) {
+		body := []*pb.PredicateV2{
+			{Name: name(0), Terms: []*pb.TermV2{vr(0), vr(1)}},
+			{Name: name(1), Terms: []*pb.TermV2{vr(1)}}, // join on the second column
+		}
+		if r.Chance(1, 2) {
+			body = append(body, &pb.PredicateV2{Name: name(0), Terms: []*pb.TermV2{vr(1), vr(2)}}) // and a self-join
+		}
+		if r.Chance(1, 3) {
+			body = append(body, &pb.PredicateV2{Name: name(1), Terms: []*pb.TermV2{Pick(r, vals)}}) // constant of any type
+		}
+		var ex []*pb.ExpressionV2
+		for i, n := 0, r.Intn(3); i < n; i++ {
+			k := pb.OpBinary_Kind(Pick(r, binKinds))
+			ops := []*pb.Op{{Content: &pb.Op_Value{Value: vr(r.Intn(2))}}, {Content: &pb.Op_Value{Value: Pick(r, append(vals, vr(1)))}},
+				{Content: &pb.Op_Binary{Binary: &pb.OpBinary{Kind: &k}}}}
+			if r.Chance(1, 3) {
+				u := pb.OpUnary_Kind(r.Intn(3))
+				ops = append(ops, &pb.Op{Content: &pb.Op_Unary{Unary: &pb.OpUnary{Kind: &u}}})
+			}
+			ex = append(ex, &pb.ExpressionV2{Ops: ops})
+		}
+		return body, ex
+	}
+	for i, n := 0, 1+r.Intn(2); i < n; i++ {
+		body, ex := mkBody()
+		b.RulesV2 = append(b.RulesV2, &pb.RuleV2{Head: &pb.PredicateV2{Name: name(2), Terms: []*pb.TermV2{vr(0), vr(1)}}, Body: body, Expressions: ex})
+	}
+	q := uint64(27) // "query"
+	for i, n := 0, 1+r.Intn(2); i < n; i++ {
+		body, ex := mkBody()
+		b.ChecksV2 = append(b.ChecksV2, &pb.CheckV2{Queries: []*pb.RuleV2{{Head: &pb.PredicateV2{Name: &q}, Body: body, Expressions: ex}}})
+	}
+	return mustMarshal(b)
+}
+
 // advToken: schema-valid, validly signed by an attacker-chosen root key, adversarial values.
 func advToken(r *Rng) ([]byte, []byte, string) {
 	apub, apriv, _ := ed25519.GenerateKey(&detRand{r})
 	nb := 1 + r.Intn(3)
 	var blocks [][]byte
+	if r.Chance(1, 3) {
+		// coherent join blocks: block i declares 8 symbols, so its indexes start at 1024 + 8*i
+		for i := 0; i < nb; i++ {
+			blocks = append(blocks, advJoinBlock(r, 1024+8*uint64(i)))
+		}
+		env, _ := forgeEnvelope(apriv, blocks, r, nil, r.Chance(1, 4))
+		return mustMarshal(env), apub, "adv-join"
+	}
 	for i := 0; i < nb; i++ {
 		blocks = append(blocks, advBlock(r))
 	}
@@ -399,7 +487,7 @@ func advToken(r *Rng) ([]byte, []byte, string) {
 }
 
 func runC10(c *Ctx) {
-	c.Rule = "every case runs in an isolated worker process (START/DONE protocol, 60 s timeout, GOMEMLIMIT): (adv) schema-valid protobuf tokens validly signed by an attacker-chosen root key with adversarial field values — symbol and variable indexes at 27/28/1023/1024/2^31/2^32/2^63/2^64-1, secrets of length 0..64, short keys, odd signatures, absent proof content, unknown algorithm / operator enum values, sets of byte arrays, empty / mixed / nested sets, variables in facts and sets, terms and ops without content, ill-formed expressions, unsupported versions; (mut) byte-level mutations (bit flips, truncations, splices) of library-built tokens and of the repository's sample tokens; (rand) random byte strings. On each: Unmarshal, then String, Code, RevocationIds, Serialize, GetBlockID, AuthorizerFor under a random and under the signing key, Authorize twice, Query, PrintWorld, Append, Seal, LoadPolicies. The Lean model of Unmarshal must agree on accept/reject for the (adv) stream. Non-trivial = the bytes were accepted by Unmarshal (so evaluation was reached) or the case is an (adv) token; distinct = distinct byte strings."
+	c.Rule = "every case runs in an isolated worker process (START/DONE protocol, 60 s timeout, GOMEMLIMIT): (adv) schema-valid protobuf tokens validly signed by an attacker-chosen root key with adversarial field values — symbol and variable indexes at 27/28/1023/1024/2^31/2^32/2^63/2^64-1, secrets of length 0..64, short keys, odd signatures, absent proof content, unknown algorithm / operator enum values, sets of byte arrays, empty / mixed / nested sets, variables in facts and sets, terms and ops without content, ill-formed expressions, unsupported versions; one third of them coherent join blocks (every symbol declared, so that evaluation is reached) with facts of every value type joined through repeated variables, constants in body positions and random operators on bound variables; (mut) byte-level mutations (bit flips, truncations, splices) of library-built tokens and of the repository's sample tokens; (rand) random byte strings. On each: Unmarshal, then String, Code, RevocationIds, Serialize, GetBlockID, AuthorizerFor under a random and under the signing key, Authorize twice, Query, PrintWorld, Append, Seal, LoadPolicies. The Lean model of Unmarshal must agree on accept/reject for the (adv) stream. Non-trivial = the bytes were accepted by Unmarshal (so evaluation was reached) or the case is an (adv) token; distinct = distinct byte strings."
 	r := NewRng(c.Seed)
 	w, err := startWorker(c.OutDir)
 	if err != nil {
